@@ -154,6 +154,11 @@ func derivedDocsScaled(base []doc, large bool, scale int) []doc {
 			out = append(out, doc{d.Name + "+trailer", d.Fmt, append(append([]byte{}, d.Data...), []byte("\n<!-- exported by subtitle-tool 1.2 -->\n")...)})
 		}
 	}
+	// documents of one single line without a final line break (the smallest files a reader meets)
+	for i, o := range []struct{ f, d string }{{"vtt", "WEBVTT"}, {"vtt", "WEBVTT - a title"}, {"srt", "1"}, {"srt", "text only"},
+		{"ssa", "[Script Info]"}, {"ssa", "[Events]"}, {"ttml", "<tt></tt>"}} {
+		out = append(out, doc{fmt.Sprintf("oneline%d.%s", i, o.f), o.f, []byte(o.d)})
+	}
 	out = append(out, stlChains()...)
 	if large {
 		out = append(out, largeDocs(scale)...)
